@@ -28,8 +28,12 @@ def _run(ctx, f):
                 return f()
 
 
+def _conc(x):
+    return x.__index__() if hasattr(x, "__index__") else x
+
+
 def edges_of(H):
-    return [set(m) for m in H._edge.values()]
+    return [set(_conc(x) for x in m) for m in H._edge.values()]
 
 
 def has_repeat(es):
@@ -125,6 +129,8 @@ def gen(ctx, p):
                 ctx.require(k == 0, f"{g}: p=0 produced edges of that order")
             if pr == 1:
                 ctx.require(k == comb(n, d + 2, exact=True), f"{g}: p=1 did not produce all edges of that order")
+        if sum(1 for pr in ps if 0 < pr < 1) == 1 and all(pr in (0, 0.5) for pr in ps):
+            ctx.info["outcome"] = "config:" + "|".join(sorted("-".join(map(str, sorted(e))) for e in es))
     elif g == "uniform_erdos_renyi_hypergraph":
         n, m, pr = p["n"], p["m"], p["p"]
         H = _run(ctx, lambda: xgi.uniform_erdos_renyi_hypergraph(n, m, pr, p_type=p["p_type"], multiedges=p["multiedges"]))
@@ -138,6 +144,11 @@ def gen(ctx, p):
             ctx.require(len(es) == 0, f"{g}: p=0 produced edges")
         if q == 1 and not p["multiedges"]:
             ctx.require(len(es) == comb(n, m, exact=True), f"{g}: p=1 did not produce every m-subset exactly once")
+        if q == 1 and p["multiedges"]:
+            ctx.require(all(set(c) in es for c in itertools.combinations(range(n), m)), f"{g}: p=1 with multiedges did not produce every m-set of distinct nodes")
+        if q is not None and 0 < q < 1:
+            # which candidates were produced on this path (completeness is checked across paths)
+            ctx.info["outcome"] = "config:" + "|".join(sorted("-".join(map(str, sorted(e))) for e in es))
     elif g == "uniform_HSBM":
         n, m, sizes = p["n"], p["m"], p["sizes"]
         P = np.array(p["p"], dtype=float)
@@ -206,6 +217,27 @@ def gen(ctx, p):
                 ctx.require(k == comb(n, d + 2, exact=True), f"{g}: p=1 did not produce all simplices of that order")
             if pr == 0 and all(q == 0 for q in ps[d:]):
                 ctx.require(k == 0, f"{g}: p=0 (and above) produced simplices of that order")
+    elif g == "flag_complex_history":
+        G = nx.Graph()
+        G.add_nodes_from(range(p["n"]))
+        G.add_edges_from(p["links"])
+        mo = p["max_order"]
+        f = (lambda: xgi.flag_complex(G, max_order=mo)) if p["which"] == "flag_complex" else (lambda: xgi.flag_complex_d2(G))
+        _run(ctx, f)
+        if p["edit"] == "add":
+            missing = [c for c in itertools.combinations(range(p["n"]), 2) if not G.has_edge(*c)]
+            if not missing:
+                ctx.assume(False)
+            G.add_edge(*missing[ctx.choose("which_link", len(missing))])
+        else:
+            links = list(G.edges)
+            if not links:
+                ctx.assume(False)
+            G.remove_edge(*links[ctx.choose("which_link", len(links))])
+        S = _run(ctx, f)
+        vals = [set(m) for m in S._edge.values()]
+        cliques = [set(c) for c in nx.enumerate_all_cliques(G) if 2 <= len(c) <= mo + 1]
+        ctx.require(all(v in cliques for v in vals) and all(c in vals for c in cliques), "flag complex of a graph that was modified after an earlier call does not contain exactly its cliques")
     elif g in ("flag_complex", "flag_complex_d2"):
         G = nx.Graph()
         G.add_nodes_from(range(p["n"]))
@@ -275,6 +307,78 @@ def crosshair_post(results):
                                        "cmd": "python -m crosshair check --report_all --per_condition_timeout 120 vx/ch/decoders.py"}}}
 
 
+def completeness_replay(pr):
+    """Concrete confirmation of a completeness failure: for every subset S of the
+    candidate indices, script geometric() so that the skip sampler lands exactly on
+    S and run the real generator; returns the first S it cannot produce (or None)."""
+    import importlib
+
+    if pr["gen"] == "uniform_erdos_renyi_hypergraph":
+        cands = pr["n"] if pr["multiedges"] else comb(pr["n"], pr["m"], exact=True)
+        call = lambda: xgi.uniform_erdos_renyi_hypergraph(pr["n"], pr["m"], pr["p"], p_type="prob", multiedges=pr["multiedges"])
+        mods = ["xgi.generators.uniform"]
+    else:
+        d = [i for i, q in enumerate(pr["ps"]) if 0 < q < 1][0]
+        cands = comb(pr["n"], d + 2, exact=True)
+        call = lambda: xgi.fast_random_hypergraph(pr["n"], list(pr["ps"]))
+        mods = ["xgi.generators.random"]
+    for mask in range(2 ** cands):
+        S = [i for i in range(cands) if (mask >> i) & 1]
+        draws = []
+        prev = -1
+        for i in S:
+            draws.append(i - prev if prev >= 0 else i + 1)
+            prev = i
+        draws.append(cands + 5)
+        it = iter(draws)
+        with stubs.patched({(m, "geometric"): (lambda q, it=it: next(it)) for m in mods}):
+            with warnings.catch_warnings():
+                warnings.simplefilter("ignore")
+                H = call()
+        if H.num_edges != len(S):
+            return S
+    return None
+
+
+def completeness_post(results):
+    """Skip sampling must be able to produce EVERY subset of the candidates when
+    0 < p < 1: the configurations seen across all paths of a unit are counted."""
+    problems, viol = [], []
+    checked = 0
+    for r in results:
+        pr = r["params"]
+        cfgs = [k for k in r["outcomes"] if k.startswith("config:")]
+        if not cfgs or r["capped"] or r["error"]:
+            continue
+        if pr.get("gen") == "uniform_erdos_renyi_hypergraph" and not pr["multiedges"] and pr["p_type"] == "prob":
+            cands = comb(pr["n"], pr["m"], exact=True)
+        elif pr.get("gen") == "uniform_erdos_renyi_hypergraph" and pr["multiedges"] and pr["m"] == 1:
+            cands = pr["n"]
+        elif pr.get("gen") == "fast_random_hypergraph":
+            d = [i for i, q in enumerate(pr["ps"]) if 0 < q < 1][0]
+            cands = comb(pr["n"], d + 2, exact=True)
+        else:
+            continue
+        checked += 1
+        if len(cfgs) != 2 ** cands:
+            with stubs.uninstalled():
+                bad = completeness_replay(pr)
+            if bad is None:
+                problems.append(f"completeness: {len(cfgs)} of {2 ** cands} configurations seen for {pr} but the concrete replay produced them all")
+                continue
+            viol.append({"harness": "C16.gen", "params": pr, "clause": "skip sampling cannot produce every subset of the candidate edges",
+                         "model": {"index_subset": bad}, "info": {"args": {"distinct_configurations": len(cfgs), "expected": 2 ** cands, "unreachable_index_subset": bad}},
+                         "replay_py": "def replay():\n    from vx.props.c16 import completeness_replay\n    return completeness_replay(" + repr(pr) + ") is not None\n"})
+    return {"violations": viol, "problems": problems, "coverage": {"completeness_units": checked}}
+
+
+def post_all(results):
+    a = completeness_post(results)
+    b = crosshair_post(results)
+    return {"violations": a["violations"] + b["violations"], "problems": a["problems"] + b["problems"],
+            "coverage": dict(a["coverage"], **b["coverage"])}
+
+
 def small_graphs(nmax):
     out = []
     for n in range(2, nmax + 1):
@@ -315,7 +419,7 @@ def spec(tier, seed):
         for pr in pvals:
             units.append(("C16.gen", {"gen": "uniform_erdos_renyi_hypergraph", "n": n, "m": m, "p": pr, "p_type": "prob", "multiedges": False}))
         units.append(("C16.gen", {"gen": "uniform_erdos_renyi_hypergraph", "n": n, "m": m, "p": 1.0, "p_type": "degree", "multiedges": False}))
-    for n, m in ((3, 2), (2, 2), (2, 3)):
+    for n, m in ((3, 2), (2, 2), (2, 3), (3, 1), (4, 1)):
         for pr in pvals:
             units.append(("C16.gen", {"gen": "uniform_erdos_renyi_hypergraph", "n": n, "m": m, "p": pr, "p_type": "prob", "multiedges": True}))
     for n, sizes in ((3, [1, 2]), (4, [2, 2])):
@@ -348,12 +452,18 @@ def spec(tier, seed):
         for mo in (2, 3):
             for ps in (None, [0], [1], [0.5], [1, 0], [0.5, 0.5]):
                 units.append(("C16.gen", {"gen": "flag_complex", "n": n, "links": links, "max_order": mo, "ps": ps}))
+    for n, links in small_graphs(4):
+        if n < 3:
+            continue
+        for which, mo in (("flag_complex", 2), ("flag_complex", 3), ("flag_complex_d2", 2)):
+            for edit in ("add", "remove"):
+                units.append(("C16.gen", {"gen": "flag_complex_history", "n": n, "links": links, "max_order": mo, "which": which, "edit": edit}))
     for u in units:
         u[1].setdefault("shape", None)
         u[1].setdefault("kind", u[1].get("gen"))
     return {
         "units": units,
-        "post": crosshair_post,
+        "post": post_all,
         "states_key": "gen",
         "caps": {"paths": 100000, "wall": 900},
         "level": "model_checking",
